@@ -189,18 +189,44 @@ def r3(run: Run, src):
     if fi is None:
         raise AnalysisError('C19.R3', 'Excel._get_suspicious_constructions not found')
     loc = loc_of(fi.module.path, fi.node)
-    calls = sorted([n for n in ast.walk(fi.node) if isinstance(n, ast.Call) and isinstance(n.func, ast.Attribute) and
-                    isinstance(n.func.value, ast.Name) and n.func.value.id == 're' and n.args and
-                    isinstance(n.args[0], ast.Constant)], key=lambda n: (n.lineno, n.col_offset))
-    if len(calls) != 2:
-        raise AnalysisError('C19.R3', f'expected two constant regex calls, found {len(calls)}')
-    call_rx, ex_rx = calls
+    # regex uses: re.<method>(<constant>, subject)  or  <compiled constant>.<method>(subject) with the compiled pattern bound at
+    # class or module level (cls._NAME / self._NAME / NAME = re.compile(<constant>))
+    compiled = {}
+    scopes = list(ex.node.body) + list(fi.module.tree.body)
+    for st in scopes:
+        if isinstance(st, ast.Assign) and isinstance(st.value, ast.Call) and ast.unparse(st.value.func) == 're.compile' and \
+                st.value.args and isinstance(st.value.args[0], ast.Constant) and isinstance(st.value.args[0].value, str):
+            for t in st.targets:
+                if isinstance(t, ast.Name):
+                    compiled[t.id] = st.value.args[0].value
+
+    class Use:
+        def __init__(self, node, pattern, method, subject):
+            self.node, self.pattern, self.method, self.subject = node, pattern, method, subject
+            self.lineno, self.col_offset = node.lineno, node.col_offset
+    uses = []
+    for n in ast.walk(fi.node):
+        if not (isinstance(n, ast.Call) and isinstance(n.func, ast.Attribute)):
+            continue
+        recv = n.func.value
+        if isinstance(recv, ast.Name) and recv.id == 're' and n.args and isinstance(n.args[0], ast.Constant) and \
+                isinstance(n.args[0].value, str) and n.func.attr in ('findall', 'search', 'match', 'fullmatch', 'finditer'):
+            uses.append(Use(n, n.args[0].value, n.func.attr, n.args[1] if len(n.args) > 1 else None))
+        else:
+            name = recv.attr if isinstance(recv, ast.Attribute) and isinstance(recv.value, ast.Name) and recv.value.id in ('cls', 'self', ex.name) \
+                else recv.id if isinstance(recv, ast.Name) else None
+            if name in compiled and n.func.attr in ('findall', 'search', 'match', 'fullmatch', 'finditer'):
+                uses.append(Use(n, compiled[name], n.func.attr, n.args[0] if n.args else None))
+    uses.sort(key=lambda u: (u.lineno, u.col_offset))
+    if len(uses) != 2:
+        raise AnalysisError('C19.R3', f'expected two constant regex uses, found {len(uses)}')
+    call_rx, ex_rx = uses
     # value is stringified first
     run.check('str(' in ast.unparse(fi.node), 'C19.R3', 'suspicious/str', 'not-stringified', 'the cell value is not converted to text '
               'before matching', fact='str(value)', loc=loc)
 
     def ident_before_paren(call):
-        rx = Regex(call.args[0].value)
+        rx = Regex(call.pattern)
         items = list(rx.tree)
         # <class>+ \(
         if len(items) < 2 or items[0][0] not in (sre_c.MAX_REPEAT, sre_c.MIN_REPEAT):
@@ -218,23 +244,30 @@ def r3(run: Run, src):
     if cchars is None or echars is None:
         raise AnalysisError('C19.R3', 'the patterns are not of the form <class>+\\( ...')
     run.check(LOWER <= cchars and UPPER <= cchars and '_' in cchars, 'C19.R3', 'suspicious/call-pattern', 'call-pattern-class',
-              f'the call-syntax pattern {call_rx.args[0].value!r} does not admit every identifier character before "(" (lower-case: '
+              f'the call-syntax pattern {call_rx.pattern!r} does not admit every identifier character before "(" (lower-case: '
               f'{LOWER <= cchars}, upper-case: {UPPER <= cchars}, underscore: {"_" in cchars}): eval( / os.system( would not be seen',
-              fact='identifier class incl. lower case, directly followed by (', loc=loc_of(fi.module.path, call_rx))
-    run.check(call_rx.func.attr == 'findall', 'C19.R3', 'suspicious/call-findall', 'not-findall', 'fragments are not collected with findall',
+              fact='identifier class incl. lower case, directly followed by (', loc=loc_of(fi.module.path, call_rx.node))
+    run.check(call_rx.method == 'findall', 'C19.R3', 'suspicious/call-findall', 'not-findall', 'fragments are not collected with findall',
               fact='findall', loc=loc)
     run.check(echars <= UPPER and len(echars) > 0, 'C19.R3', 'suspicious/exemption-pattern', 'exemption-class',
-              f'the exemption pattern {ex_rx.args[0].value!r} admits {sorted(echars - UPPER)[:8]} before "(": only upper-case Excel '
-              f'function names may be exempted', fact='upper-case letters only', loc=loc_of(fi.module.path, ex_rx))
+              f'the exemption pattern {ex_rx.pattern!r} admits {sorted(echars - UPPER)[:8]} before "(": only upper-case Excel '
+              f'function names may be exempted', fact='upper-case letters only', loc=loc_of(fi.module.path, ex_rx.node))
+    # a fragment is exempt when it CONTAINS an upper-case call: the test must search the whole fragment (findall / search);
+    # match / fullmatch only look at its beginning, so DEC2BIN(A1) -- upper-case letters, a digit, then BIN( -- is no longer exempt
+    anchored = ex_rx.method in ('match', 'fullmatch') and not ex_rx.pattern.startswith(('.*', '(?s).*', '(?s:.*)'))
+    run.check(not anchored, 'C19.R3', 'suspicious/exemption-search', 'exemption-anchored',
+              f'the exemption pattern {ex_rx.pattern!r} is applied with re.{ex_rx.method}, i.e. only at the beginning of the fragment: a '
+              f'fragment whose upper-case call does not start at its first character (DEC2BIN(A1), HEX2DEC(B3)) is reported as Python-like',
+              fact=f'unanchored ({ex_rx.method})', loc=loc_of(fi.module.path, ex_rx.node))
     # a fragment is listed iff it matches the first and not the second
     comps = [n for n in ast.walk(fi.node) if isinstance(n, ast.ListComp)]
     ok = False
     if len(comps) == 1 and len(comps[0].generators) == 1 and len(comps[0].generators[0].ifs) == 1:
         g = comps[0].generators[0]
         cond = g.ifs[0]
-        ok = isinstance(cond, ast.UnaryOp) and isinstance(cond.op, ast.Not) and cond.operand is ex_rx and \
+        ok = isinstance(cond, ast.UnaryOp) and isinstance(cond.op, ast.Not) and cond.operand is ex_rx.node and \
             isinstance(comps[0].elt, ast.Name) and isinstance(g.target, ast.Name) and comps[0].elt.id == g.target.id and \
-            len(ex_rx.args) > 1 and isinstance(ex_rx.args[1], ast.Name) and ex_rx.args[1].id == g.target.id
+            isinstance(ex_rx.subject, ast.Name) and ex_rx.subject.id == g.target.id
     run.check(ok, 'C19.R3', 'suspicious/selection', 'selection',
               'the reported fragments are not exactly those call-syntax fragments that do not match the exemption pattern',
               fact='[f for f in fragments if not exemption(f)]', loc=loc)
